@@ -1,10 +1,10 @@
 (* Props/C16.v — decoded messages and encoded bytes never alias each other's memory. *)
-From Coq Require Import List Strings.String Bool.
+From Coq Require Import List NArith Strings.String Bool.
 Import ListNotations.
 From FP.Model Require Import Alias.
 From FP.Theory Require Import AliasSound.
 From FP.Gen Require Import Helpers.
-Local Open Scope string_scope.
+Local Open Scope N_scope.
 
 (* ---- obligations on the may-share graph the translator extracted from codec/*.go ---- *)
 (* every expression and statement of the library was inside the extraction grammar *)
@@ -12,51 +12,53 @@ Lemma H_no_unknown : unknown_facts = [].
 Proof. reflexivity. Qed.
 
 (* decoding: nodes that may reach the buffer's memory *)
-Definition T_dec : list string := taint true [] flow.
+Definition T_dec : list node := taint true [] flow.
 Lemma H_closed_dec : closedb true flow T_dec = true.
 Proof. vm_compute. reflexivity. Qed.
-(* no reader's result, and nothing a message's Decode stores, is among them *)
-Definition results : list string := "MSG" :: map (fun f => f ++ ".ret") readers.
+(* no reader's result, no receiver of any of the 170 Decode methods (what a decoded message holds), is among them *)
+Definition results : list node := id_MSG :: reader_rets ++ decode_receivers.
 Lemma H_readers_clean : forallb (fun x => negb (mem x T_dec)) results = true.
 Proof. vm_compute. reflexivity. Qed.
 
 (* encoding: nodes that may reach the memory of a value handed to a writer *)
-Definition T_enc : list string := taint false writer_params flow.
+Definition T_enc : list node := taint false writer_params flow.
 Lemma H_closed_enc : closedb false flow T_enc = true.
 Proof. vm_compute. reflexivity. Qed.
 Lemma H_seeded_enc : forallb (fun p => mem p T_enc) writer_params = true.
 Proof. vm_compute. reflexivity. Qed.
 (* the buffer's own memory is not among them: no writer makes the buffer adopt caller memory *)
-Lemma H_buffer_clean : mem "BUFMEM" T_enc = false.
+Lemma H_buffer_clean : mem id_BUFMEM T_enc = false.
 Proof. vm_compute. reflexivity. Qed.
 
 (* ---- the property ---- *)
 (* Whatever path control takes through the library (any order, any number of times, any interleaving of the
    statements of all functions), starting with no variable holding a reference into the buffer's backing array
    (region 0), the result of every reader - and so everything a message Decode stores - never reaches it. *)
-Theorem C16_decoded_values_do_not_reach_the_buffer : forall st st',
-  (forall x r, In r (st x) -> r <> 0) -> run is_buffer flow st st' ->
-  forall f, In f results -> forall r, In r (st' f) -> r <> 0.
+Theorem C16_decoded_values_do_not_reach_the_buffer : forall st st' : store,
+  (forall x r, In r (st x) -> r <> 0%nat) -> run is_buffer flow st st' ->
+  forall f, In f results -> forall r, In r (st' f) -> r <> 0%nat.
 Proof. exact (results_avoid_buffer flow T_dec results H_closed_dec H_readers_clean). Qed.
 
 (* Hence overwriting, resetting or reusing the buffer's memory changes nothing one can see from a decoded value,
    to any depth of its lists and nested parts. *)
-Theorem C16_buffer_mutation_invisible : forall st st' (h h' : heap),
-  (forall x r, In r (st x) -> r <> 0) -> run is_buffer flow st st' ->
-  forall f, In f results -> ptr_closed h (st' f) -> (forall r, r <> 0 -> h' r = h r) ->
+Theorem C16_buffer_mutation_invisible : forall (st st' : store) (h h' : heap),
+  (forall x r, In r (st x) -> r <> 0%nat) -> run is_buffer flow st st' ->
+  forall f, In f results -> ptr_closed h (st' f) -> (forall r, r <> 0%nat -> h' r = h r) ->
   forall n r, In r (st' f) -> look n h' r = look n h r.
 Proof. exact (buffer_mutation_invisible flow T_dec results H_closed_dec H_readers_clean). Qed.
 
 (* Encoding: mark any memory other than the buffer's (the message's lists, text, nested parts).  If at the start
    only the writers' value parameters (and what is derived from them) may reach it, the buffer's backing array
    never does: the bytes written are copies, and changing the message afterwards cannot change them. *)
-Theorem C16_buffer_does_not_reach_the_message : forall (msg : region -> Prop) st st',
-  ~ msg 0 -> (forall x, mem x T_enc = false -> forall r, In r (st x) -> ~ msg r) -> run msg flow st st' ->
-  forall r, In r (st' "BUFMEM") -> ~ msg r.
-Proof. exact (sink_avoids_marked flow T_enc "BUFMEM" H_closed_enc H_buffer_clean). Qed.
+Theorem C16_buffer_does_not_reach_the_message : forall (msg : region -> Prop) (st st' : store),
+  ~ msg 0%nat -> (forall x, mem x T_enc = false -> forall r, In r (st x) -> ~ msg r) -> run msg flow st st' ->
+  forall r, In r (st' id_BUFMEM) -> ~ msg r.
+Proof. exact (sink_avoids_marked flow T_enc id_BUFMEM H_closed_enc H_buffer_clean). Qed.
 
 (* non-vacuity: the graph is not empty, readers exist, and a run that copies a reader's result around exists *)
-Example C16_graph_nontrivial : Nat.leb 30 (List.length flow) = true /\ Nat.leb 10 (List.length readers) = true /\ T_dec = [].
+Example C16_graph_nontrivial :
+  Nat.leb 1500 (List.length flow) = true /\ Nat.leb 10 (List.length reader_rets) = true /\ Nat.leb 170 (List.length decode_receivers) = true /\
+  Nat.leb 170 (List.length writer_params) = true /\ T_dec = [].
 Proof. vm_compute. repeat split; reflexivity. Qed.
 
 Print Assumptions C16_decoded_values_do_not_reach_the_buffer.
